@@ -16,6 +16,23 @@ from dataclasses import dataclass
 from harness.core import Ctx, Driver, InfraError
 
 ID = "C09"
+CLAIM = {
+    "technique": "Lean 4 proof (refinement of the optimised router/bus to linear first-match) + model/code correspondence",
+    "text": (
+        "Proved in Lean for every recipe length, checker arrangement and request: the handlers handed out by the "
+        "ExactOriginCombiner/LocatedRequestRouter model are exactly the matching providers in recipe order, each once "
+        "(combine_refines_linear, no_provider_twice); the bus with ChainingProvider equals the documented "
+        "first-match / Chain.FIRST / Chain.LAST meaning (send_eq_spec, chain_first_once, chain_last_once); extend "
+        "prepends. The model is tied to the code by four correspondences (router items, router walk, bus outcome with "
+        "the real ChainingProvider, public facade incl. extend/replace/nested retort)."
+    ),
+    "note": (
+        "Trusted: Lean 4.33 kernel; axioms audited each run (subset of propext, Classical.choice, Quot.sound). The theorems "
+        "are about the Lean model; the model is hand-written and tied to /repo on every run by differential correspondence "
+        "(exhaustive over short recipes, random beyond). Request checkers are assumed pure; predicates themselves are C10."
+    ),
+    "design_ref": "DESIGN.md §4 C09",
+}
 PROPS_FILE = "AdaptixProofs/Props/C09.lean"
 LEAN_TARGETS = ["AdaptixProofs.Props.C09", "drv_c09"]
 RULE = ("recipes are lists of (checker, handler) over 3 origins + 2 non-exact checkers; quick: exhaustive up to "
